@@ -3,16 +3,16 @@ CONSTANTS
   MaxLeaves = 2
   MaxOps = 2
   MaxStack = 2
-  VarSet <- VarsA
+  VarSet <- VarsB
   NumSet <- NumsA
-  FuncSet <- FuncsA
-  Toks <- ToksA
-  GToks <- GToksA
-  IntExps <- ExpsA
-  Wraps <- AllWraps
-  Muts <- NoStrings
-  Cors <- NoStrings
-  Styles <- NoStrings
+  FuncSet <- FuncsB
+  Toks <- ToksB
+  GToks <- GToksB
+  IntExps <- ExpsB
+  Wraps <- WrapsB
+  Muts <- AllMuts
+  Cors <- AllCors
+  Styles <- OneStyle
   EmitMin = 0
   Bug = ""
 INVARIANT VerdictAgree
